@@ -253,7 +253,7 @@ pub fn write_integer(integer: u32, s: &mut dyn Write) -> RdpResult<()> {
 pub fn read_integer_16(minimum: u16, s: &mut dyn Read) -> RdpResult<u16> {
     let mut result = U16::BE(0);
     result.read(s)?;
-    Ok(result.inner() + minimum)
+    result.inner().checked_add(minimum).ok_or(Error::RdpError(RdpError::new(RdpErrorKind::InvalidSize, "PER integer 16 out of range")))
 }
 
 /// This is a convenient method for PER encoding
